@@ -20,6 +20,7 @@ import projgen
 import vlib
 
 PID = "C28"
+CONFIRM_BY_REPLAY = True   # a new deviation is reported only if replaying its stored case repeats it
 META = {
     "cat": "exploration",
     "text": "All ids the hooked binary raises (reported or not, via the Raw events of the logger pipeline) on a broad corpus with every severity, "
